@@ -1294,6 +1294,8 @@ class Container:
                                           'U' if substance.is_enzyme() else config.moles_storage_unit, 'mol')
                         for substance, value in solvent.contents.items())
             volume = Unit.convert_from_storage(solvent.volume, 'mL')
+            if moles == 0 or volume == 0:
+                raise ValueError("Solvent must contain a non-zero amount of substance.")
             d_y = mass / volume
             mw_y = mass / moles
             m_y = Unit.convert_from_storage(solvent.contents.get(solute, 0), 'mol') / (volume / 1000)
